@@ -309,6 +309,10 @@ def run_case(case: dict) -> CaseResult:
         from aioesphomeapi.reconnect_logic import ReconnectLogic
 
         env.tcp_script = [("refuse", D)] if op.get("tcp") == "refuse" else [("ok", 2 * D)]
+        if op.get("tcp") == "refuse_then_ok":
+            # the first attempt fails (the manager starts listening: an instance may be created), the retry succeeds
+            # (listening ends, the session is up) and only then stop() is called
+            env.tcp_script = [("refuse", D)] * (len(env.tcp_calls) + 1) + [("ok", 2 * D)]
         cli = make_client(env, address=op.get("address", "kitchen.local"))
         # the client shares the manager under test
         cli._params.zeroconf_manager = manager
@@ -405,7 +409,7 @@ def _case(draw, tier):
                 ops[-1]["land"] = draw(st.integers(0, 2))
                 ops[-1]["again"] = draw(st.booleans())
         else:
-            ops.append({"op": "rl", "tcp": draw(st.sampled_from(["refuse", "ok"])), "pass_instance": draw(st.booleans()), "wait": draw(st.sampled_from([1, 3])), "address": draw(st.sampled_from(["kitchen.local", "kitchen", "10.0.0.5"]))})
+            ops.append({"op": "rl", "tcp": draw(st.sampled_from(["refuse", "ok", "refuse_then_ok"])), "pass_instance": draw(st.booleans()), "wait": draw(st.sampled_from([1, 3])), "address": draw(st.sampled_from(["kitchen.local", "kitchen", "10.0.0.5"]))})
     mdns = {n: draw(st.sampled_from(MDNS_OUT + ([MDNS_HANG] if any(o["op"] == "client" for o in ops) else []))) for n in ("kitchen", "bedroom", "porch", "living_room", "esp-01", "ESP32_a")}
     dns = {h: draw(st.sampled_from(DNS_OUT)) for h in LOCALS + FQDNS}
     return {"manager": draw(st.sampled_from(["none", "empty", "empty", "supplied_async", "supplied_sync"])), "mdns": mdns, "dns": dns, "ops": ops}
@@ -475,7 +479,7 @@ def enumerated(tier):
             for wait in (0.5, 1, 2, 3, 31):
                 yield {"manager": mgr, "mdns": {"kitchen": mo}, "dns": {"kitchen.local": DNS_OUT[0]}, "ops": [{"op": "rl", "tcp": "refuse", "pass_instance": False, "wait": wait, "address": "kitchen.local"}, res_]}
     for mgr in managers[1:]:
-        for tcp in ("refuse", "ok"):
+        for tcp in ("refuse", "ok", "refuse_then_ok"):
             for pi in (False, True):
                 for addr in ("kitchen.local", "10.0.0.5"):
                     yield {"manager": mgr, "mdns": {"kitchen": MDNS_OUT[0]}, "dns": {}, "ops": [{"op": "rl", "tcp": tcp, "pass_instance": pi, "wait": 3, "address": addr}, res_]}
